@@ -16,7 +16,9 @@
 //@ tus formatters/patternformatter.cpp
 //@ lower PatternFormatter::PatternFormatterPrivate::parsePattern
 //@ loopbody PatternFormatter_PatternFormatterPrivate_parsePattern 0
-//@ lemma lemma_parsePattern_step timeout=1500
+//@ lemma lemma_parsePattern_step_literal timeout=1500 fastcanary=1
+//@ lemma lemma_parsePattern_step_keyword timeout=1500 fastcanary=1
+//@ lemma lemma_parsePattern_step_attribute timeout=1500 fastcanary=1
 #define LEN_LIGHT
 #define QS_GRAMMAR
 /* the documented keywords (their literal identities; a literal the code no longer contains gets a fallback identity from the engine) */
@@ -81,14 +83,22 @@ static inline int to_int_of(int pid, int off, int n)                            
 #define NAME_EQ(lit, n) (n_len == (n) && KWP(lit))
 #define NAME_STARTS(lit, n) (n_len >= (n) && KWP(lit))
 
-/* ONE STEP of the tokeniser = the body of parsePattern()'s loop, for every pattern, position and parser state */
-void lemma_parsePattern_step(void)
+/* ONE STEP of the tokeniser = the body of parsePattern()'s loop, for every pattern, position and parser state.  The three lemmas below
+ * split the input space (only to let the proofs run in parallel): the text at the scan position is not "%{" / is "%{" followed by a
+ * documented keyword / is "%{" followed by anything else; together they cover every input. */
+enum { CASE_LITERAL = 0, CASE_KEYWORD = 1, CASE_ATTRIBUTE = 2 };
+static inline void step_lemma(int which)
 {
     PatternFormatter_PatternFormatterPrivate priv; PatternFormatter_PatternFormatterPrivate *self = &priv;
     int pos; QString literalText; QtMsgType currentCondition; BOOL hasCondition;
     /* loop guard and loop invariant (the invariant is re-established: asserted below; initially pos = 0, empty literal, no condition) */
     LEMMA_REQUIRES(QSTRING_VALID(self->m_pattern) && self->m_pattern.src == 0 && self->m_pattern.off == 0 && self->m_pattern.id != 0 && self->m_tokens.n >= 0);
     LEMMA_REQUIRES(0 <= pos && pos < self->m_pattern.len && QSTRING_VALID(literalText) && IS_BOOL(hasCondition) && QTMSGTYPE_VALID(currentCondition));
+    {
+        const BOOL ph = pos < self->m_pattern.len - 1 && __CPROVER_uninterpreted_unit(self->m_pattern.id, pos) == 37 && __CPROVER_uninterpreted_unit(self->m_pattern.id, pos + 1) == 123;
+        const int k = __CPROVER_uninterpreted_kw(self->m_pattern.id, pos + 2);
+        LEMMA_REQUIRES(which == CASE_LITERAL ? !ph : which == CASE_KEYWORD ? (ph && k != 0) : (ph && k == 0));
+    }
     g_app_n = 0; g_app0 = NULL; g_app1 = NULL;
     const int pid = self->m_pattern.id, plen = self->m_pattern.len, p0 = pos, hc0 = hasCondition; const QtMsgType cc0 = currentCondition;
     const QString lit0 = literalText; const QString pat0 = self->m_pattern; const int ntok_list0 = self->m_tokens.n;
@@ -187,5 +197,7 @@ void lemma_parsePattern_step(void)
             }
         }
     }
-    LEMMA_END;
 }
+void lemma_parsePattern_step_literal(void) { step_lemma(CASE_LITERAL); LEMMA_END; }
+void lemma_parsePattern_step_keyword(void) { step_lemma(CASE_KEYWORD); LEMMA_END; }
+void lemma_parsePattern_step_attribute(void) { step_lemma(CASE_ATTRIBUTE); LEMMA_END; }
